@@ -448,6 +448,14 @@ Plan shrink_plan(const Plan &orig, const std::string &sig, bool scope, long budg
         }
       }
       q = p;
+      if (q.world.fd_limit) {
+        q.world.fd_limit = 0;
+        if (still_fails(c, q)) {
+          p = q;
+          progress = true;
+        }
+      }
+      q = p;
       if (q.world.behind != 0) {
         q.world.behind = 0;
         if (still_fails(c, q)) {
@@ -739,6 +747,7 @@ int cmd_run(const Args &a) {
   s.set("mremap_inplace", stats().mremap_inplace);
   s.set("short_reads", stats().short_reads);
   s.set("transient_short_writes", stats().transient_short_writes);
+  s.set("descriptor_limit_hits", stats().fd_limit_hits);
   s.set("leaked_blocks_after_faults", stats().leaks_blocks);
   s.set("leaked_mappings_after_faults", stats().leaks_maps);
   s.set("leaked_descriptors_after_faults", stats().leaks_fds);
